@@ -278,6 +278,16 @@ def fam_c06(tier, seed):
     small = [(l, BASES[0]) for l in sk.bs_family(1, 3 if tier == "quick" else 4, SHORT, need_sell=True)]
     small += [(l, BASES[0]) for l in sk.bs_family(2, 3, [0, 30], tickers=("A", "B"), need_sell=True)]
     sks += _number("f", _dedup(small), variant="fills")
+    # fills separated by another line of the day, with a later capital event / split acting on the lots they leave
+    uni = []
+    for ev in ("C", "M", "X"):
+        e61 = [ev, "A", 61] + (["2"] if ev == "X" else [])
+        e30 = [ev, "A", 30] + (["2"] if ev == "X" else [])
+        uni.append(([["B", "A", 0], ["S", "A", 1], ["B", "A", 30], ["B", "B", 30], e61], BASES[0]))
+        uni.append(([["B", "A", 0], ["S", "A", 1], ["B", "A", 30], ["S", "A", 30], e61], BASES[0]))
+        uni.append(([["B", "A", 0], ["B", "B", 0], ["S", "A", 1], e30], BASES[0]))
+        uni.append(([["B", "A", 0], ["S", "A", 1], ["B", "A", 30], ["B", "B", 30], e61, ["S", "A", 61]], BASES[0]))
+    sks += _number("u", uni, variant="fills", fills="uniform")
     files = [(l, BASES[0]) for l in sk.bs_family(1, 3, [0, 1, 30], need_sell=True)]
     sks += _number("c", _dedup(files), variant="files")
     # report level (grouping into disposals, tax years, sorts): ledgers with several disposals but no same-day duplicate
